@@ -24,13 +24,21 @@ def partitionSvg : List Ev → List Ev × Option (Elem × Bool) × List Ev
       let (a, p, b) := partitionSvg rest
       (ev :: a, p, b)
 
+/-- how many elements are open after these events (start tags minus end tags) -/
+def openDepth (evs : List Ev) : Int :=
+  evs.foldl (fun d e => match e with | .start _ => d + 1 | .end_ _ => d - 1 | _ => d) 0
+
 /-- `postprocess` for non-real-SVG documents, auto-styles off -/
 def postprocess (cfg : RootCfg) (evs : List Ev) (bbox : Option BoundingBox) : Option (List Ev) :=
   match partitionSvg evs with
   | (pre, some (root, wasEmpty), remain) =>
     (rootAttrs cfg root.attrs bbox).map fun a =>
-      pre ++ [Ev.start { name := cs!"svg", attrs := a, classes := root.classes }] ++ remain ++
-        (if wasEmpty then [Ev.end_ cs!"svg"] else [])
+      let start := Ev.start { name := cs!"svg", attrs := a, classes := root.classes }
+      let close := if wasEmpty then [Ev.end_ cs!"svg"] else []
+      -- an emptied `<svg/>` inside another element is closed right behind what is generated into it;
+      -- at the top level (an empty or unclosed root) the rest of the document stays inside it
+      if openDepth pre > 0 then pre ++ [start] ++ close ++ remain
+      else pre ++ [start] ++ remain ++ close
   | (_, none, _) => some evs
 
 /-- exactness monitor of `postprocess` (see `derivedExact`) -/
